@@ -754,7 +754,7 @@ def run(ctx):
     ctx.extra["foreign_files"] = len(foreign)
     sources = []
     cdir = os.path.join(C.VERIF, "corpus", "C17")
-    corpus = [json.load(open(os.path.join(cdir, f))) for f in sorted(os.listdir(cdir)) if f.endswith(".json")] if os.path.isdir(cdir) else []
+    corpus = [json.load(open(os.path.join(cdir, f))) for f in sorted(os.listdir(cdir)) if f.endswith(".json") and not f.startswith("hp_")] if os.path.isdir(cdir) else []
     ctx.extra["corpus_cases"] = len(corpus)
     for rel in foreign:
         sources.append({"source": "foreign", "rel": rel})
